@@ -69,6 +69,8 @@ type Script struct {
 	RowsAffected int64
 	LastInsertID int64
 	Faults       []Fault
+	// ExtraResultSets: the query answers with this many further (empty) result sets.
+	ExtraResultSets int
 }
 
 // State is the per-database state shared by all its connections.
@@ -314,7 +316,7 @@ func (st *stmt) QueryContext(ctx context.Context, args []driver.NamedValue) (dri
 	st.c.s.mu.Lock()
 	st.c.s.openRows[rid] = true
 	st.c.s.mu.Unlock()
-	return &rows{st: st, id: rid, cols: sc.Columns, data: sc.Rows}, nil
+	return &rows{st: st, id: rid, cols: sc.Columns, data: sc.Rows, moreSets: sc.ExtraResultSets}, nil
 }
 
 type rows struct {
@@ -324,6 +326,20 @@ type rows struct {
 	data   [][]driver.Value
 	pos    int
 	closed bool
+	// further result sets still to come (driver.RowsNextResultSet)
+	moreSets int
+}
+
+func (r *rows) HasNextResultSet() bool { return r.moreSets > 0 }
+
+func (r *rows) NextResultSet() error {
+	if r.moreSets == 0 {
+		return io.EOF
+	}
+	r.moreSets--
+	r.data = nil
+	r.pos = 0
+	return nil
 }
 
 func (r *rows) Columns() []string { return r.cols }
